@@ -562,4 +562,74 @@ Section L.
         rewrite (vrun_lookup m _ (leaf_values (c_data c))); [apply Hvr; assumption|].
         apply (same_vlookup fs c' c); try assumption. split; [|split]; assumption.
   Qed.
+
+  (* (1) rendering a deeply valid configuration succeeds; loading the rendered tree (with the final validation) into a
+     fresh configuration of the same schema succeeds; the loaded configuration holds the same values, up to the one
+     normalisation (a list slot holding None comes back as the empty list), and is deeply valid again *)
+  Theorem tree_roundtrip : forall dyn vs fs c, deep_valid F lvalidate lflag vrun dyn vs fs c ->
+    forall w w0 fresh, build_cfg w fs = (w0, fresh) ->
+    exists t w' c', to_tree None fs c = Ok t /\
+      load_tree t true w0 [] fresh dyn vs fs = (w', c', OOk) /\
+      same_values F fs c' c /\ deep_valid F lvalidate lflag vrun dyn vs fs c'.
+  Proof.
+    intros dyn vs fs c Hv w w0 fresh Hb. unfold deep_valid in *. apply valid_sub_unfold in Hv.
+    destruct (RT_all (S (fsize F fs)) dyn vs fs (Nat.lt_succ_diag_r _) c Hv [] [] w w0 fresh Hb) as (ents & w' & c' & Ht & Hld & Hs & Hv').
+    exists (PDict 0 ents), w', c'. split; [|split; [|split]].
+    - unfold Config.to_tree. rewrite tree_slot_sub. exact Ht.
+    - unfold Config.load_tree. rewrite Hld. rewrite (valid_raise_ok dyn vs fs c' [] Hv'). reflexivity.
+    - unfold same_values. apply (proj2 (same_sub_unfold _ _ _ _ _)). exact Hs.
+    - apply (proj2 (valid_sub_unfold _ _ _ _)). exact Hv'.
+  Qed.
+
+  (* (3) with a document codec that decodes what it encodes on its domain: loads (dumps c) fresh ≈ c *)
+  Section Codec.
+    Variable B : Type.
+    Variable enc : pyval -> B.
+    Variable dec : B -> res pyval.
+    Variable dom : pyval -> Prop.
+    Hypothesis codec_law : forall t, dom t -> dec (enc t) = Ok t.
+
+    Definition dumps (fs : list (str * node)) (c : cfg) : res B :=
+      match to_tree None fs c with Ok t => Ok (enc t) | Err e => Err e | Unmodelled => Unmodelled end.
+    Definition loads (doc : B) (w : world) (c : cfg) (dyn : bool) (vs : list N) (fs : list (str * node)) : world * cfg * oc :=
+      match dec doc with
+      | Ok t => load_tree t true w [] c dyn vs fs
+      | Err e => (w, c, OErr e)
+      | Unmodelled => (w, c, OUnm)
+      end.
+
+    Theorem codec_roundtrip : forall dyn vs fs c, deep_valid F lvalidate lflag vrun dyn vs fs c ->
+      (forall t, to_tree None fs c = Ok t -> dom t) ->
+      forall w w0 fresh, build_cfg w fs = (w0, fresh) ->
+      exists doc w' c', dumps fs c = Ok doc /\ loads doc w0 fresh dyn vs fs = (w', c', OOk) /\ same_values F fs c' c.
+    Proof.
+      intros dyn vs fs c Hv Hdom w w0 fresh Hb.
+      destruct (tree_roundtrip dyn vs fs c Hv w w0 fresh Hb) as (t & w' & c' & Ht & Hld & Hs & _).
+      exists (enc t), w', c'. unfold dumps, loads. rewrite Ht. rewrite (codec_law t (Hdom t Ht)). split; [reflexivity | split; [exact Hld | exact Hs]].
+    Qed.
+  End Codec.
 End L.
+
+(* ------------------------------------------------------------------------------------------------ *)
+(* the concrete leaf fields of ConfigInst.v satisfy the hypotheses: no hypothesis left              *)
+(* ------------------------------------------------------------------------------------------------ *)
+Lemma inst_leaf_roundtrip : forall f x, lvalidate f x = Ok x ->
+  exists b b', lto_basic f x = Ok b /\ lto_python f b = Ok b' /\ lvalidate f b' = Ok x.
+Proof. intros f x H. exists x, x. repeat split; try reflexivity. exact H. Qed.
+
+Lemma inst_vrun_lookup : forall vt n l1 l2, (forall k, vlookup k l1 = vlookup k l2) -> vrun vt n l1 = vrun vt n l2.
+Proof.
+  intros vt n l1 l2 H. unfold vrun. destruct (assoc N.eqb n vt) as [[key bad]|]; [|reflexivity].
+  specialize (H key). unfold vlookup in H.
+  destruct (assoc str_eqb key l1) as [[]|]; destruct (assoc str_eqb key l2) as [[]|]; try discriminate; try reflexivity.
+  inversion H; subst. reflexivity.
+Qed.
+
+Theorem inst_tree_roundtrip : forall vt dyn vs fs c, deep_valid leaf lvalidate lflag (vrun vt) dyn vs fs c ->
+  forall w w0 fresh, build_cfg leaf ldefault l_callable w fs = (w0, fresh) ->
+  exists t w' c', to_tree leaf lto_basic l_sensitive py_strlen None fs c = Ok t /\
+    load_tree leaf lvalidate lto_python ldefault l_callable lflag (vrun vt) t true w0 [] fresh dyn vs fs = (w', c', OOk) /\
+    same_values leaf fs c' c /\ deep_valid leaf lvalidate lflag (vrun vt) dyn vs fs c'.
+Proof.
+  intros vt. apply tree_roundtrip; [apply inst_leaf_roundtrip | apply inst_vrun_lookup].
+Qed.
